@@ -14,8 +14,12 @@
 //! vector, modulo decisions of closures the specification never invokes.
 #[path = "c42/fam_concrete.rs"]
 mod fam_concrete;
+#[path = "c42/fam_execplan.rs"]
+mod fam_execplan;
 #[path = "c42/fam_expr.rs"]
 mod fam_expr;
+#[path = "c42/fam_physexpr.rs"]
+mod fam_physexpr;
 #[path = "c42/fam_plan.rs"]
 mod fam_plan;
 #[path = "c42/spec.rs"]
@@ -35,7 +39,7 @@ use std::sync::Mutex;
 
 /// A family of real tree types onto which abstract rose trees are rendered.
 pub trait Family {
-    type Node: TreeNode + Clone + PartialEq + std::fmt::Debug;
+    type Node: TreeNode + Clone + std::fmt::Debug;
     const NAME: &'static str;
     /// number of node kinds available for a node with `arity` children
     fn menu_len(arity: usize) -> usize;
@@ -46,6 +50,8 @@ pub trait Family {
     /// the TreeNode implementation): (kind, id (leaves), label, children).
     fn decompose(node: Self::Node) -> (usize, usize, u8, Vec<Self::Node>);
     fn label_states(arity: usize, kind: usize) -> u8;
+    /// structural equality of two trees
+    fn same(a: &Self::Node, b: &Self::Node) -> bool;
     fn short(node: &Self::Node) -> String;
     /// readable name of the node's kind (used to classify divergences)
     fn kind_label(node: &Self::Node) -> String;
@@ -61,6 +67,13 @@ pub trait Family {
     fn call_subq(_node: Self::Node, _api: Api, _drv: &RefCell<Drv<Self::Node>>) -> Option<ImplRes<Self::Node>> {
         None
     }
+}
+
+/// Equality through `decompose` (for node types without `PartialEq`).
+pub fn same_by_decompose<F: Family>(a: &F::Node, b: &F::Node) -> bool {
+    let (k1, i1, l1, c1) = F::decompose(a.clone());
+    let (k2, i2, l2, c2) = F::decompose(b.clone());
+    k1 == k2 && i1 == i2 && l1 == l2 && c1.len() == c2.len() && c1.iter().zip(&c2).all(|(x, y)| same_by_decompose::<F>(x, y))
 }
 
 /// The replacement a rewriting closure makes: the same node kind with the
@@ -237,7 +250,7 @@ fn check_against_spec<F: Family>(shape: &Shape, salt: usize, api: Api, decs: &[D
             ));
         };
         let exp_node = render::<F>(shape, &exp.labels, salt, exp.node);
-        if *ph != exp.ph || *node != exp_node {
+        if *ph != exp.ph || !F::same(node, &exp_node) {
             return Err(div::<F>(
                 "unexpected-call",
                 Some(node),
@@ -301,7 +314,7 @@ fn check_against_spec<F: Family>(shape: &Shape, salt: usize, api: Api, decs: &[D
         ImplRes::Tr(r) => {
             let t = r.map_err(|e| div::<F>("error", root, format!("unexpected error: {e}")))?;
             let exp_tree = render::<F>(shape, &sp.labels, salt, 0);
-            if t.data != exp_tree {
+            if !F::same(&t.data, &exp_tree) {
                 return Err(div::<F>(
                     "result-tree",
                     root,
@@ -341,6 +354,8 @@ fn check_family(family: &str, shape: &Shape, salt: usize, api: Api, decs: &[Dec]
         "expr" => check_against_spec::<fam_expr::ExprFam>(shape, salt, api, decs, sp),
         "plan" => check_against_spec::<fam_plan::PlanFam>(shape, salt, api, decs, sp),
         "plan_subq" => check_against_spec::<fam_plan::PlanSubqFam>(shape, salt, api, decs, sp),
+        "physexpr" => check_against_spec::<fam_physexpr::PhysExprFam>(shape, salt, api, decs, sp),
+        "execplan" => check_against_spec::<fam_execplan::ExecPlanFam>(shape, salt, api, decs, sp),
         other => Err(Div { class: "harness".into(), what: format!("unknown family {other}") }),
     });
     match r {
@@ -367,7 +382,7 @@ fn self_test<F: Family>(max_arity: usize) -> Result<u64, String> {
                 let kids = || -> Vec<F::Node> { (0..arity).map(F::selftest_child).collect() };
                 let node = F::build(kind, 7, l, kids());
                 let (k2, id2, l2, ch2) = F::decompose(node.clone());
-                if k2 != kind || ch2 != kids() || l2 != l % states.max(1) || (arity == 0 && id2 != 7) {
+                if k2 != kind || ch2.len() != arity || !ch2.iter().zip(&kids()).all(|(x, y)| F::same(x, y)) || l2 != l % states.max(1) || (arity == 0 && id2 != 7) {
                     return Err(format!(
                         "{}: decompose(build(kind {kind}, arity {arity}, label {l})) = (kind {k2}, id {id2}, label {l2}, {} children)",
                         F::NAME,
@@ -376,10 +391,10 @@ fn self_test<F: Family>(max_arity: usize) -> Result<u64, String> {
                 }
                 let re = relabel::<F>(node.clone());
                 let exp = F::build(kind, 7, l + 1, kids());
-                if re != exp {
+                if !F::same(&re, &exp) {
                     return Err(format!("{}: relabel(kind {kind}, arity {arity}, label {l}) != build(label+1)", F::NAME));
                 }
-                if states > 1 && re == node {
+                if states > 1 && F::same(&re, &node) {
                     return Err(format!("{}: kind {kind} arity {arity}: replacement is not observable", F::NAME));
                 }
                 n += 1;
@@ -536,10 +551,12 @@ fn explore(ctx: &Ctx) {
             "max_nodes_single_phase_apis(apply_children,apply,exists,map_children,transform_down,transform_up,transform)": b.n_single,
             "max_nodes_visit": b.n_visit,
             "max_nodes_transform_down_up_and_rewrite": b.n_rewrite2,
-            "kind_rotations_single_phase": b.salts_single,
+            "kind_rotations_single_phase": format!("{} (a third of them at the largest size)", b.salts_single),
             "kind_rotations_two_phase": b.salts_double,
             "with_subqueries(LogicalPlan): max_nodes_single_phase/visit, two_phase_rewriting, kind_rotations": [b.n_subq, b.n_subq2, b.salts_subq],
-            "families": ["concrete (harness ConcreteTreeNode)", "expr", "plan", "plan_subq (*_with_subqueries APIs)"],
+            "families": ["concrete (harness ConcreteTreeNode)", "expr", "plan", "plan_subq (*_with_subqueries APIs)", "physexpr (Arc<dyn PhysicalExpr>)", "execplan (Arc<dyn ExecutionPlan>)"],
+            "transform(synonym of transform_up)": "max_nodes_single_phase - 1",
+            "kind_rotations_arc_families": "min(rotations, 6)",
             "decisions_per_invocation": "inspecting: {Continue,Jump,Stop}; exists: {false,true}; rewriting: {unchanged,replaced} x {Continue,Jump,Stop}",
             "shapes": "all ordered rose trees with <= max_nodes nodes",
         }),
@@ -555,6 +572,8 @@ fn explore(ctx: &Ctx) {
         mc_core::catch(|| self_test::<fam_expr::ExprFam>(6)),
         mc_core::catch(|| self_test::<fam_plan::PlanFam>(6)),
         mc_core::catch(|| self_test::<fam_plan::PlanSubqFam>(6)),
+        mc_core::catch(|| self_test::<fam_physexpr::PhysExprFam>(6)),
+        mc_core::catch(|| self_test::<fam_execplan::ExecPlanFam>(6)),
     ] {
         match r.unwrap_or_else(Err) {
             Ok(n) => ctx.count("harness_selftest_nodes", n),
@@ -581,7 +600,7 @@ fn explore(ctx: &Ctx) {
         let shapes: Vec<Shape> = spec::trees(n).iter().map(|a| Shape::new(a).unwrap()).collect();
         shapes_total += shapes.len();
         let mut units: Vec<Unit> = vec![];
-        for family in ["concrete", "expr", "plan", "plan_subq"] {
+        for family in ["concrete", "expr", "plan", "plan_subq", "physexpr", "execplan"] {
             for shape in &shapes {
                 let mut apis: Vec<(Api, usize)> = vec![];
                 if family == "plan_subq" {
@@ -596,7 +615,10 @@ fn explore(ctx: &Ctx) {
                     }
                 } else {
                     if n <= b.n_single {
-                        apis.extend(single.iter().map(|a| (*a, b.salts_single)));
+                        // `transform` is a documented synonym of `transform_up`: one node less
+                        // at the largest size a third of the kind rotations (all of them up to one node less)
+                        let rot = if n == b.n_single { b.salts_single.div_ceil(3) } else { b.salts_single };
+                        apis.extend(single.iter().filter(|a| **a != Api::Transform || n < b.n_single).map(|a| (*a, rot)));
                     }
                     if n <= b.n_visit {
                         apis.push((Api::Visit, b.salts_double));
@@ -607,7 +629,12 @@ fn explore(ctx: &Ctx) {
                     }
                 }
                 for (api, salts) in apis {
-                    let salts = if family == "concrete" { 1 } else { salts };
+                    // the Arc<dyn ..> families have at most 6 kinds per arity
+                    let salts = match family {
+                        "concrete" => 1,
+                        "physexpr" | "execplan" => salts.min(6),
+                        _ => salts,
+                    };
                     for salt in 0..salts {
                         // work units: fix the first one or (larger trees) two decisions
                         let k = api.options().len();
@@ -659,7 +686,7 @@ fn main() {
     run_check(
         "C42",
         Level::ModelChecking,
-        "every ordered rose tree within the node bound x family (harness ConcreteTreeNode, Expr, LogicalPlan, LogicalPlan with subqueries; node kinds rotated through a per-arity menu) \
+        "every ordered rose tree within the node bound x family (harness ConcreteTreeNode, Expr, LogicalPlan, LogicalPlan with subqueries, Arc<dyn PhysicalExpr>, Arc<dyn ExecutionPlan>; node kinds rotated through a per-arity menu) \
          x API x every execution of the per-invocation decision tree; each closure invocation (= transition) is compared with the specification \
          interpreter's (phase, node snapshot), then result tree, transformed flag and Stop-ness of the final recursion value; \
          non-trivial = tree has >= 2 nodes and some decision is not (unchanged, Continue); distinct_nontrivial counts distinct (shape, API, decision vector); \
